@@ -19,12 +19,22 @@
     and capacity are stored back after each capacity-changing call, which is read
     off the source on every run (Gen/Facts.v [fact_wb_*], one per call site) and
     shown necessary by three refuting histories.
+    (e) the shape-changing path of Entry::add / Entry::remove at the byte level
+    (Model/Packed.v): the row travels through a packed, unaligned byte buffer and
+    the new identifier bytes are computed from the old ones by byte arithmetic
+    that is REGENERATED from the source (Gen/Bytes.v); for every registry size,
+    every component sizes (zero-sized included), every shape and row: every read
+    from the buffer finds exactly the bytes of one value of the type read (no
+    reinterpretation, nothing past the end), the new identifier is the old one
+    with exactly that bit set / cleared, and the row that reaches the new
+    archetype and the value dropped last are the ones the logical layer
+    (Model/World.v: insert_at / remove_at at the rank) says.
     PARTIAL (carried by the correspondence, not by a theorem): the size/alignment
-    of the concrete component types, the packed row buffer offsets and the
-    identifier buffers are audited on the real code by the harness's global
-    allocator after every operation and at the end of every history. *)
+    of the concrete component types and the lifetime of the identifier buffers
+    are audited on the real code by the harness's global allocator after every
+    operation and at the end of every history. *)
 From Brood Require Import Base World Multi Spec Kinds Tables Sched Query SerdeC Phys
-  BaseFacts Inv StepInv QueryFacts SerdeL SerdeCFacts PhysFacts Heap HeapFacts ColsFacts.
+  BaseFacts Inv StepInv QueryFacts SerdeL SerdeCFacts PhysFacts Heap HeapFacts ColsFacts Bytes Packed PackedFacts.
 
 Theorem C05_unchecked_accesses : forall n res ops, run (empty_world n res) ops <> None.
 Proof. intros n res ops. exact (run_safe ops (empty_world n res) (empty_world_inv n res)). Qed.
@@ -105,3 +115,51 @@ Print Assumptions C05_writeback_needed.
 
 Example C05_columns_nonvacuous : exists s', crun wb_push wb_reserve wb_shrink cinit stale_shrink = Some s' /\ hp_blocks (fst s') = [].
 Proof. vm_compute. eexists. split; reflexivity. Qed.
+
+
+(** byte level: Entry::add moves the row through the packed buffer without reinterpreting a byte *)
+Theorem C05_entry_add_through_the_buffer : forall sizes n bytes row c v,
+  let sh := shape_of_bytes' n bytes in
+  c < n -> length bytes = (n + 7) / 8 -> get_bit c sh = false -> row_ok sizes sh row ->
+  phys_entry_add sizes n bytes row c v = Some (add_bytes c bytes, insert_at (rank c (set_bit c true sh)) v row) /\
+  shape_of_bytes' n (add_bytes c bytes) = set_bit c true sh.
+Proof. exact phys_entry_add_refines. Qed.
+Check (C05_entry_add_through_the_buffer : forall sizes n bytes row c v,
+  let sh := shape_of_bytes' n bytes in
+  c < n -> length bytes = (n + 7) / 8 -> get_bit c sh = false -> row_ok sizes sh row ->
+  phys_entry_add sizes n bytes row c v = Some (add_bytes c bytes, insert_at (rank c (set_bit c true sh)) v row) /\
+  shape_of_bytes' n (add_bytes c bytes) = set_bit c true sh).
+Print Assumptions C05_entry_add_through_the_buffer.
+
+(** ... and Entry::remove: the other components reach the new archetype, and the value read at the offset the
+    masked identifier gives — the one dropped — is the removed component's own *)
+Theorem C05_entry_remove_through_the_buffer : forall sizes n bytes row c,
+  let sh := shape_of_bytes' n bytes in
+  c < n -> length bytes = (n + 7) / 8 -> get_bit c sh = true -> row_ok sizes sh row ->
+  exists old, nth_error row (rank c sh) = Some old /\
+    phys_entry_remove sizes n bytes row c = Some (remove_bytes c bytes, remove_at (rank c sh) row, old) /\
+    shape_of_bytes' n (remove_bytes c bytes) = set_bit c false sh.
+Proof. exact phys_entry_remove_refines. Qed.
+Check (C05_entry_remove_through_the_buffer : forall sizes n bytes row c,
+  let sh := shape_of_bytes' n bytes in
+  c < n -> length bytes = (n + 7) / 8 -> get_bit c sh = true -> row_ok sizes sh row ->
+  exists old, nth_error row (rank c sh) = Some old /\
+    phys_entry_remove sizes n bytes row c = Some (remove_bytes c bytes, remove_at (rank c sh) row, old) /\
+    shape_of_bytes' n (remove_bytes c bytes) = set_bit c false sh).
+Print Assumptions C05_entry_remove_through_the_buffer.
+
+(** the masking loop of Entry::remove, as generated from the source, keeps exactly the preceding components *)
+Theorem C05_mask_keeps_the_preceding_components : forall n bytes c, c <= n -> length bytes = (n + 7) / 8 ->
+  shape_of_bytes' n (mask_bytes c bytes) = mask_shape c (shape_of_bytes' n bytes).
+Proof. exact shape_mask_bytes. Qed.
+Print Assumptions C05_mask_keeps_the_preceding_components.
+
+(** what the drop at the end of Entry::remove uses is what the theorem is about (read off the source) *)
+Theorem C05_remove_drop_site_facts :
+  fact_mask_feeds_size_of_components = true /\ fact_drop_reads_at_offset = true /\ fact_mask_from_previous_identifier = true.
+Proof. vm_compute. repeat split. Qed.
+
+Example C05_buffer_nonvacuous :
+  let sizes := [8; 0; 4; 1; 8; 8; 2; 0; 4; 16] in
+  phys_entry_remove sizes 10 [5%N; 2%N] [11%N; 12%N; 13%N] 2 = Some ([1%N; 2%N], [11%N; 13%N], 12%N).
+Proof. vm_compute. reflexivity. Qed.
